@@ -58,6 +58,7 @@ def string_splitting(conv: ast.expr) -> bool:
 
 def run(chk: Check) -> None:
     ix = get_index()
+    run_section_application(chk, ix)
     O = options_attrs(ix)
     mopt = ix.module("mypy.options")
     mcfg = ix.module("mypy.config_parser")
@@ -329,3 +330,32 @@ def doc_global_only(lines: list[str]) -> dict[str, bool]:
             out[cur] = True
         i += 1
     return out
+
+
+def run_section_application(chk: Check, ix) -> None:
+    """R17.6: each config section is applied on its own through apply_changes."""
+    r6 = chk.rule("R17.6", "every per-module section's settings reach an Options object as the sole argument of its own apply_changes call (apply_changes accumulates enable/disable_error_code onto the inherited sets, so merging section dicts first is not equivalent), and inside clone_for_module the unstructured sections are applied in a loop over _glob_options in file order", floor=2)
+    n = 0
+    for q, f in sorted(ix.functions.items()):
+        if f.parent is not None or not f.module.name.startswith("mypy.") or ".test" in f.module.name:
+            continue
+        par = None
+        for sub in ast.walk(f.node):
+            if isinstance(sub, ast.Subscript) and isinstance(sub.ctx, ast.Load) and isinstance(sub.value, ast.Attribute) and sub.value.attr == "per_module_options":
+                par = par or f.module.parents()
+                p_ = par.get(sub)
+                n += 1
+                key = f"{q}: {norm(sub)} is applied by its own apply_changes call"
+                if isinstance(p_, ast.Call) and isinstance(p_.func, ast.Attribute) and p_.func.attr == "apply_changes" and p_.args and p_.args[0] is sub and len(p_.args) == 1:
+                    r6.ok(key, f.loc(sub))
+                else:
+                    r6.violation(key, f.loc(sub), f"a section's settings dict is used as `{norm(p_)[:70]}` instead of being handed to apply_changes by itself: merged dicts lose the accumulating effect of enable_error_code / disable_error_code (parse_section stores an empty list for every section, which then overwrites an earlier section's list)")
+    if n < 2:
+        raise AnalysisError(f"only {n} reads of per_module_options[...] found")
+    cfm = ix.func("mypy.options.Options.clone_for_module")
+    loops = [l for l in ast.walk(cfm.node) if isinstance(l, ast.For) and "_glob_options" in norm(l.iter)]
+    ok = bool(loops) and any(isinstance(c, ast.Call) and isinstance(c.func, ast.Attribute) and c.func.attr == "apply_changes" for l in loops for c in ast.walk(l))
+    if ok:
+        r6.ok("clone_for_module applies each matching unstructured section inside the loop over _glob_options", cfm.loc(loops[0]))
+    else:
+        r6.violation("clone_for_module applies each matching unstructured section inside the loop over _glob_options", cfm.loc(), "matching unstructured sections are no longer applied one after the other in file order")
